@@ -19,6 +19,8 @@ type Ctx struct {
 
 	runtime    *EmittedPkg
 	runtimeErr error
+
+	extraWorldUnit *Unit
 }
 
 func (c *Ctx) Thorough() bool { return c.Tier == "thorough" }
